@@ -1,0 +1,10 @@
+//go:build verif
+
+// Contracts for the deductive verifier in /verif (comment-only; compiled only with -tags verif).
+package p2p
+
+//@ func (*Peer).unpackFrame
+//@   props C15
+//@   requires p != nil
+//@   ensures result2 == nil ==> len(result1) <= len(content)
+//@   nopanic
